@@ -74,6 +74,16 @@ ASSUMPTIONS = [
     "(step_size, steps, mass matrix parameter) at the moment of the trajectory, whatever value the adaptor chose "
     "(how adaptors choose it is not C16's subject); find_reasonable_step_size is used on Normal / MVN targets only "
     "and a raise inside it is counted, not asserted; HMCOperator.load_state_dict belongs to C17",
+    "wide_*: every coordinate has its own scale s_i in 1e-4..1e3; the target's spread there is s_i and the mass "
+    "f_i/s_i^2 with f_i in 0.03..30 (diagonal masses 3e-8..3e9), dense mass matrices D^1/2 R D^1/2 (condition "
+    "numbers up to ~1e11), centres up to 1e5 spreads from the origin, step sizes 1e-6..0.5, momenta with the "
+    "scale of N(0,M). Tolerances are relative to conditioning: per component 1e-2 x the deviation caused by "
+    "relative perturbations of 1e-9 in every gradient (relative to the sum of the magnitudes of its terms) / drift / mass-matrix entry and 1e-11 in every stored "
+    "position (i.e. agreement up to relative errors of 1e-11 per operation, 1e-13 per stored position, ~1e5 / "
+    "1e3 units of round-off, all of one sign so that they accumulate linearly, with whatever amplification the mass matrix, the position magnitude and the "
+    "trajectory give them), plus 1e-14 of the component's magnitude; reversal 10 x (forward + return); the Hastings "
+    "term additionally 1e-2 x the change of K under the 1e-9-perturbed inverse mass matrix. Guard: whitened "
+    "speed grows by < 1e3 and the probe moves the whitened trajectory by < 1e5 x 1e-9 of its speed",
     "mixed_*: float64 positions with a float32 mass matrix (JSON Parameter with dtype torch.float32, diagonal entries "
     "powers of two so that the inverse is exact), a step size that is a float32 number (the library forms step_size * "
     "inverse_mass_matrix in float32) and float32 momentum (exactly representable): the integrator "
@@ -92,6 +102,8 @@ ASSUMPTIONS = [
 
 AMP_MAX = 1e3
 ETA = 1e-9
+ETA_Q = 1e-11
+WIDE_FACT = 1e-2
 SCALE_MAX = 1e4
 FD_H = 2.5e-4
 TOPOLOGIES = ["((A:0.1,B:0.1):0.1,C:0.1,D:0.1);", "((A:0.1,C:0.1):0.1,B:0.1,D:0.1);", "((A:0.1,D:0.1):0.1,B:0.1,C:0.1);"]
@@ -149,6 +161,74 @@ def _block(draw, kind, n):
         # concentration > 1: the density vanishes at 0 (mode inside the support)
         return {"kind": kind, "n": n, "conc": [draw(logu(1.5, 8.0)) for _ in range(n)], "rate": [draw(logu(0.5, 5.0)) for _ in range(n)]}
     return {"kind": "mvn", "n": n, "loc": [draw(fl(-3.0, 3.0)) for _ in range(n)], "prec": _spd(draw, n, 0.1, 10.0, 0.05)}
+
+
+@st.composite
+def wide_cases(draw, operator=False, max_L=30):
+    """targets and mass matrices of very different scales: every coordinate has its own scale s_i (1e-4 .. 1e3,
+    half decades), the target's spread in that coordinate is s_i and the mass is f_i / s_i^2 (f_i within a factor
+    30 of the ideal 1/variance), so diagonal masses run over 3e-8 .. 3e9; dense matrices are D^1/2 R D^1/2 with a
+    generated correlation-like R (condition numbers up to ~1e11); centres up to 1e5 spreads away from the origin
+    (positions of large magnitude), step sizes down to 1e-6"""
+    c = {"target": "block", "wide": True}
+    c["eps"] = draw(_logu_grid(1e-6, 0.5))
+    c["L"] = draw(st.sampled_from(_spread(range(1, max_L + 1))))
+    mass_kind = draw(st.sampled_from(["diag", "diag", "dense"]))
+    if operator:
+        c["decisions"] = draw(st.sampled_from([["accept"], ["reject"], ["accept", "reject"], ["reject", "accept"]]))
+        c["mass_route"] = draw(st.sampled_from(["spec", "assigned"]))
+        c["torch_seed"] = draw(st.integers(0, 2**31 - 1))
+    d = draw(st.sampled_from(_spread(range(1, 9))))
+    npar = draw(st.sampled_from([k for k in (1, 3, 2) if k <= d]))
+    cuts = sorted(draw(st.lists(st.integers(1, d - 1), min_size=npar - 1, max_size=npar - 1, unique=True))) if npar > 1 else []
+    edges = [0] + cuts + [d]
+    sizes = [edges[i + 1] - edges[i] for i in range(npar)]
+    half = list(range(-8, 7)) if mass_kind == "diag" else list(range(-5, 5))
+    blocks, q0, scales = [], [], []
+    for n in sizes:
+        kind = draw(st.sampled_from(["normal", "mvn", "gamma_raw", "gamma", "normal"]))
+        s = [1.0 if kind == "gamma" else 10.0 ** (draw(st.sampled_from(_spread(half))) / 2.0) for _ in range(n)]
+        far = [draw(st.sampled_from([0.0, 0.0, 1.0, 10.0, 1e2, 1e3, 1e4, 1e5])) * draw(st.sampled_from([1.0, -1.0])) for _ in range(n)]
+        if kind == "normal":
+            loc = [si * fi for si, fi in zip(s, far)]
+            blocks.append({"kind": kind, "n": n, "loc": loc, "scale": list(s)})
+            q0 += [m + si * draw(fl(-3.0, 3.0)) for m, si in zip(loc, s)]
+        elif kind == "mvn":
+            loc = [si * fi for si, fi in zip(s, far)]
+            R = np.asarray(_spd(draw, n, 1.0, 1.0, 0.3))
+            dg = np.sqrt(np.diag(R))
+            R = R / np.outer(dg, dg)
+            A = R / np.outer(s, s)
+            blocks.append({"kind": kind, "n": n, "loc": loc, "prec": (0.5 * (A + A.T)).tolist()})
+            q0 += [m + si * draw(fl(-3.0, 3.0)) for m, si in zip(loc, s)]
+        elif kind == "gamma_raw":
+            blocks.append({"kind": kind, "n": n, "conc": [draw(logu(1.5, 8.0)) for _ in range(n)], "rate": [1.0 / si for si in s]})
+            q0 += [si * draw(fl(0.5, 4.0)) for si in s]
+        else:
+            blocks.append(_block(draw, "gamma", n))
+            q0 += [draw(fl(-2.0, 2.0)) for _ in range(n)]
+        scales += s
+    f = [10.0 ** (draw(st.sampled_from([0, 1, -1, 2, -2, 3, -3])) / 2.0) for _ in range(d)]
+    D = np.array([fi / (si * si) for fi, si in zip(f, scales)])
+    if mass_kind == "diag":
+        c["mass"] = {"kind": "diag", "M": D.tolist()}
+        Lc = np.diag(np.sqrt(D))
+    else:
+        R = np.asarray(_spd(draw, d, 1.0, 1.0, 0.2))
+        dg = np.sqrt(np.diag(R))
+        R = R / np.outer(dg, dg)
+        Mm = np.sqrt(np.outer(D, D)) * R
+        Mm = 0.5 * (Mm + Mm.T)
+        c["mass"] = {"kind": "dense", "M": Mm.tolist()}
+        Lc = np.linalg.cholesky(Mm)
+    c["blocks"] = blocks
+    c["sizes"] = sizes
+    c["q0"] = q0
+    if not operator:
+        # momentum with the scale the operator would draw it with: p = chol(M) z
+        z = np.array([draw(fl(-3.0, 3.0)) for _ in range(d)])
+        c["p0"] = (Lc @ z).tolist()
+    return c
 
 
 @st.composite
@@ -403,6 +483,7 @@ class Oracle:
             t = lf.BlockTarget(c["blocks"])
             self.logp = t.logp
             self.grad = t.grad
+            self.gabs = t.gabs
 
     def _fresh(self, q):
         # a point where the density itself cannot be evaluated is outside the guarded region
@@ -512,8 +593,66 @@ def _lab(res, *labs):
     res.labels = tuple(res.labels) + tuple(labs)
 
 
+def _tol_arrays(ref, S):
+    n = len(ref["q"])
+    ref["tol_q"] = np.full(n, 1e-10 * S)
+    ref["tol_p"] = np.full(n, 1e-10 * S)
+
+
+def excess(ref, q1, p1, factor=1.0, q_ref=None, p_ref=None, extra=None):
+    """max over components of |difference| / tolerance (<= 1 passes); inf on odd shapes / non-finite"""
+    qr = ref["q"] if q_ref is None else q_ref
+    pr = ref["p"] if p_ref is None else p_ref
+    q1, p1 = arr(q1), arr(p1)
+    if q1.shape != qr.shape or p1.shape != pr.shape or not (np.all(np.isfinite(q1)) and np.all(np.isfinite(p1))):
+        return float("inf")
+    tq, tp = ref["tol_q"] * factor, ref["tol_p"] * factor
+    if extra is not None:
+        tq, tp = tq + extra["tol_q"] * factor, tp + extra["tol_p"] * factor
+    return float(max(np.max(np.abs(q1 - qr) / tq), np.max(np.abs(p1 - pr) / tp)))
+
+
+def _reference_wide(c, orc, q0, p0, eps, L, minv):
+    """scale-free variant: tolerances are WIDE_FACT times the component-wise effect of relative perturbations
+    of size ETA (1e-9; positions ETA_Q = 1e-11) in every operation, i.e. agreement up to the effect of relative
+    errors of 1e-11 per operation (1e-13 in the stored positions) - about 1e5 (1e3) units of round-off -
+    including the conditioning of the mass matrix and of positions far from the origin"""
+    M = mass_np(c)
+    ref = lf.leapfrog(q0, p0, eps, L, minv, orc.grad)
+    if not ref["finite"]:
+        return ref, float("inf"), "guard:unstable"
+    if not orc.representable(ref["traj"]):
+        return ref, float("inf"), "guard:outside_float_range"
+    Lc = np.diag(np.sqrt(M)) if M.ndim == 1 else np.linalg.cholesky(M)
+    wp = [np.linalg.solve(Lc, pk) for _, pk in ref["traj"]]
+    speed0 = max(1.0, float(np.max(np.abs(wp[0]))), float(np.max(np.abs(np.linalg.solve(Lc, eps * np.asarray(orc.grad(np.asarray(q0, dtype=float))))))))
+    speed = max(float(np.max(np.abs(w))) for w in wp)
+    if not speed <= 1e3 * speed0:
+        return ref, float("inf"), "guard:unstable"
+    out = lf.probe_rel(q0, p0, eps, L, M, orc.grad, ref, eta=ETA, eta_q=ETA_Q, gabs=orc.gabs)
+    if out is None or not orc.representable(out[2]["traj"]):
+        return ref, float("inf"), "guard:unstable"
+    dq, dp, pert = out
+    ref["pert"] = pert
+    # linear regime: in whitened coordinates the probe moves the trajectory by less than 1e-4 of its speed
+    lin = 0.0
+    for (qa, pa), (qb, pb) in zip(ref["traj"], pert["traj"]):
+        lin = max(lin, float(np.max(np.abs(np.linalg.solve(Lc, pa - pb)))), float(np.max(np.abs(Lc.T @ (qa - qb)))))
+    amp = lin / (ETA * max(1.0, speed))
+    if not amp <= 1e5:
+        return ref, amp, "guard:unstable"
+    qmax = np.max(np.abs(np.array([qk for qk, _ in ref["traj"]])), axis=0)
+    pmax = np.max(np.abs(np.array([pk for _, pk in ref["traj"]])), axis=0)
+    ref["tol_q"] = WIDE_FACT * dq + 1e-14 * qmax + 1e-300
+    ref["tol_p"] = WIDE_FACT * dp + 1e-14 * pmax + 1e-300
+    ref["white"] = Lc
+    return ref, amp, None
+
+
 def _reference(c, orc, q0, p0, eps, L, minv):
     """reference trajectory, round-off amplification, and the reason (or None) why nothing may be asserted"""
+    if c.get("wide"):
+        return _reference_wide(c, orc, q0, p0, eps, L, minv)
     ref = lf.leapfrog(q0, p0, eps, L, minv, orc.grad)
     if not ref["finite"]:
         return ref, float("inf"), "guard:unstable"
@@ -527,6 +666,7 @@ def _reference(c, orc, q0, p0, eps, L, minv):
     ref["pert"] = pert
     if not amp <= AMP_MAX:
         return ref, amp, "guard:unstable"
+    _tol_arrays(ref, ref["scale"])
     return ref, amp, None
 
 
@@ -568,6 +708,23 @@ def body_trajectory(c, which):
     if q1 is None:
         return res.fail("shape", {"shapes": [list(p.tensor.shape) for p in b.params], "sizes": c["sizes"]})
     moved = float(np.max(np.abs(ref["q"] - q0))) > 1e-6 and S <= 1e3
+    if c.get("wide"):
+        moved = float(np.max(np.abs(ref["white"].T @ (ref["q"] - q0)))) > 1e-9
+        _lab(res, "cond>=1e6" if np.linalg.cond(np.diag(M) if M.ndim == 1 else M) >= 1e6 else "cond<1e6", "massmax>1e3" if float(np.max(np.abs(M))) > 1e3 else "massmax<=1e3")
+        res.nontrivial = moved
+        if which == "differential":
+            ex = excess(ref, q1, p1)
+            if not ex <= 1.0:
+                return res.fail("mismatch", {"excess": ex, "amp": amp, "q": q1.tolist(), "p": p1.tolist(), "q_ref": ref["q"].tolist(), "p_ref": ref["p"].tolist(), "tol_q": ref["tol_q"].tolist(), "tol_p": ref["tol_p"].tolist()})
+            return res
+        p2 = integ(b.joint, b.params, torch.tensor((-p1).tolist()), minv_t)
+        q2 = b.get_q()
+        if q2 is None:
+            return res.fail("shape", {"shapes": [list(p.tensor.shape) for p in b.params], "sizes": c["sizes"]})
+        ex = excess(ref, q2, arr(p2), factor=10.0, q_ref=q0, p_ref=-p0, extra=back)
+        if not ex <= 1.0:
+            return res.fail("irreversible", {"excess": ex, "amp": amp, "q_back": q2.tolist(), "p_back": arr(p2).tolist()})
+        return res
     if which == "differential":
         err = max(maxabs(q1, ref["q"]), maxabs(p1, ref["p"]))
         res.nontrivial = moved
@@ -1078,11 +1235,18 @@ def body_operator(c):
         if q1 is None:
             return res.fail("shape", {"shapes": [list(p.tensor.shape) for p in b.params], "sizes": c["sizes"]})
         err = max(maxabs(q1, ref["q"]), maxabs(p1, ref["p"]))
-        if not err <= 1e-10 * S:
+        ktol = 0.0
+        if cur.get("wide"):
+            # conditioning of K through the inverse mass matrix (torch.inverse vs the oracle's inverse)
+            mp = lf.perturbed_inverse(M, ETA)
+            ktol = WIDE_FACT * (abs(lf.kinetic(p0, mp) - lf.kinetic(p0, minv)) + abs(lf.kinetic(p1, mp) - lf.kinetic(p1, minv)))
+            if not excess(ref, q1, p1) <= 1.0:
+                return res.fail("proposal", {"excess": excess(ref, q1, p1), "amp": amp, "q": q1.tolist(), "q_ref": ref["q"].tolist(), "p": p1.tolist(), "p_ref": ref["p"].tolist(), "draws": len(att)})
+        elif not err <= 1e-10 * S:
             return res.fail("proposal", {"err": err, "scale": S, "amp": amp, "q": q1.tolist(), "q_ref": ref["q"].tolist(), "p": p1.tolist(), "p_ref": ref["p"].tolist(), "draws": len(att)})
         K0, K1 = lf.kinetic(p0, minv), lf.kinetic(p1, minv)
         Ks = max(1.0, K0, K1)
-        if not abs(hv - (K0 - K1)) <= htol * Ks:
+        if not abs(hv - (K0 - K1)) <= htol * Ks + ktol:
             return res.fail("hastings", {"returned": hv, "K0-K1": K0 - K1, "K0": K0, "K1": K1})
         if any(p.requires_grad for p in b.params):
             return res.fail("requires_grad", {"flags": [bool(p.requires_grad) for p in b.params]})
@@ -1092,9 +1256,13 @@ def body_operator(c):
         if not abs(lp1 - lp1r) <= 1e-10 * max(1.0, abs(lp1r)):
             return res.fail("stale_density", {"joint": lp1, "expected": lp1r, "step": nsteps})
         dH = (-lp1r + K1) - (-lp_cur + K0)
-        if not abs((lp1 - lp0 + hv) + dH) <= max(1e-9, htol) * max(1.0, abs(lp_cur), abs(lp1r), Ks):
+        if not abs((lp1 - lp0 + hv) + dH) <= max(1e-9, htol) * max(1.0, abs(lp_cur), abs(lp1r), Ks) + ktol:
             return res.fail("acceptance", {"log_ratio": lp1 - lp0 + hv, "minus_dH": -dH})
-        if float(np.max(np.abs(q1 - q_cur))) > 1e-6 and S <= 1e3:
+        if cur.get("wide"):
+            if float(np.max(np.abs(ref["white"].T @ (q1 - q_cur)))) > 1e-9:
+                res.nontrivial = True
+            _lab(res, "massmax>1e3" if float(np.max(np.abs(M))) > 1e3 else "massmax<=1e3")
+        elif float(np.max(np.abs(q1 - q_cur))) > 1e-6 and S <= 1e3:
             res.nontrivial = True
         if decision == "accept":
             op.accept()
@@ -1274,6 +1442,9 @@ def subchecks(tier):
         Sub("retune", body_retune, strategy=lambda: cases(targets=toy, retune=True, max_L=16 if q else 30), quick=200, thorough=8000, pretags=pretags),
         Sub("retune_phylo", body_retune, strategy=lambda: cases(targets=ph, retune=True, max_L=8, phylo_max_L=8), quick=12, thorough=300, pretags=pretags),
         Sub("operator_retune", body_operator, strategy=lambda: cases(targets=toy, operator=True, retune=True, max_L=16 if q else 30), quick=240, thorough=8000, pretags=pretags),
+        Sub("wide_differential", body_differential, strategy=lambda: wide_cases(max_L=16 if q else 30), quick=160, thorough=6000, pretags=pretags),
+        Sub("wide_reversal", body_reversal, strategy=lambda: wide_cases(max_L=16 if q else 30), quick=120, thorough=6000, pretags=pretags),
+        Sub("wide_operator", body_operator, strategy=lambda: wide_cases(operator=True, max_L=16 if q else 30), quick=240, thorough=8000, pretags=pretags),
         Sub("mixed_differential", body_differential, strategy=lambda: cases(targets=toy, mixed=True, masses=("diag", "diag", "diag", "identity", "dense")), quick=120, thorough=5000, pretags=pretags),
         Sub("mixed_reversal", body_reversal, strategy=lambda: cases(targets=toy, mixed=True, masses=("diag", "diag", "identity")), quick=120, thorough=5000, pretags=pretags),
         Sub("mixed_energy", body_energy, strategy=lambda: cases(targets=toy, mixed=True, masses=("diag", "diag", "identity"), max_L=16 if q else 30), quick=100, thorough=4000, pretags=pretags),
